@@ -5323,6 +5323,25 @@ fixed_ty!(grin_keychain::Identifier, "Identifier");
 fixed_ty!(Signature, "Signature");
 fixed_ty!(Hash, "Hash");
 
+fn pk_bytes(k: &grin_util::secp::key::PublicKey) -> Vec<u8> {
+	let secp = grin_util::static_secp_instance();
+	let secp = secp.lock();
+	k.serialize_vec(&secp, true).to_vec()
+}
+
+impl Ty for grin_util::secp::key::PublicKey {
+	const NAME: &'static str = "PublicKey";
+	fn hash_hex(&self) -> Option<String> {
+		None
+	}
+	fn same(&self, d: &Self, _v: u32) -> bool {
+		self == d
+	}
+	fn describe(&self) -> String {
+		hex(&pk_bytes(self))
+	}
+}
+
 fn pd_tokens(p: &grin_p2p::PeerData) -> String {
 	format!(
 		"{} {} {} {} {} {} {} {}",
@@ -5568,6 +5587,69 @@ fn db_values(cx: &mut Ctx) {
 			generic_mutations::<Hash>(cx, 1, false, 'A', &b, 70, 0);
 		}
 	}
+	// --- PublicKey: 33 bytes, then the REAL curve test (the model has its own: tag 02 / 03, x < p,
+	// x^3 + 7 a square mod p). Honest keys from random secret keys; random x with tag 02 / 03 (about
+	// half are on the curve); every tag byte; x = p - 1, p, p + 1, 2^256 - 1, 0, 1; truncations.
+	{
+		use grin_util::secp::key::{PublicKey, SecretKey};
+		let p_hex: [u8; 32] = {
+			let mut p = [0xffu8; 32];
+			p[27] = 0xfe;
+			p[28] = 0xff;
+			p[29] = 0xff;
+			p[30] = 0xfc;
+			p[31] = 0x2f;
+			p
+		};
+		let mut honest: Vec<Vec<u8>> = vec![];
+		for _ in 0..n {
+			let secp = grin_util::static_secp_instance();
+			let secp = secp.lock();
+			if let Ok(sk) = SecretKey::from_slice(&secp, &cx.rng.bytes(32)) {
+				if let Ok(pk) = PublicKey::from_secret_key(&secp, &sk) {
+					drop(secp);
+					honest.push(pk_bytes(&pk));
+					roundtrip_all(cx, 'A', false, &pk, true);
+				}
+			}
+		}
+		let mut probes: Vec<Vec<u8>> = vec![];
+		for _ in 0..(4 * n) {
+			let mut b = cx.rng.bytes(33);
+			b[0] = 2 + (cx.rng.below(2) as u8);
+			probes.push(b);
+		}
+		if let Some(h) = honest.first() {
+			for t in 0..=255u8 {
+				let mut b = h.clone();
+				b[0] = t;
+				probes.push(b);
+			}
+			generic_mutations::<PublicKey>(cx, 1, false, 'A', h, 33, 8);
+		}
+		for delta in [-2i32, -1, 0, 1, 2].iter() {
+			// x = p + delta
+			let mut x = p_hex;
+			let v = 0x2f + *delta;
+			x[31] = v as u8;
+			for tag in [2u8, 3] {
+				let mut b = vec![tag];
+				b.extend_from_slice(&x);
+				probes.push(b);
+			}
+		}
+		for x in [[0u8; 32], [0xffu8; 32], { let mut o = [0u8; 32]; o[31] = 1; o }, { let mut o = [0u8; 32]; o[31] = 2; o }].iter() {
+			for tag in [2u8, 3] {
+				let mut b = vec![tag];
+				b.extend_from_slice(x);
+				probes.push(b);
+			}
+		}
+		for b in probes.iter() {
+			dec_case::<PublicKey>(cx, 1, false, 'A', b, None, Expect::Any, "probe");
+		}
+	}
+	cx.out.line("ser implcodecs", "ok");
 	// --- PeerData
 	use grin_p2p::{PeerData, State};
 	let states = [State::Healthy, State::Banned, State::Defunct, State::Unknown];
@@ -5667,157 +5749,6 @@ fn db_values(cx: &mut Ctx) {
 	}
 }
 
-// ---------------------------------------------------------------------------------------------
-// run `impls`: the inventory of `impl … Readable for …` / `impl … Writeable for …` in the CURRENT
-// source tree (every crate's src directory, code before the first `#[cfg(test)]` of a file), one line
-// per impl with a fingerprint of its text (FNV-1a 64 over the impl block without white space). The
-// model side is the table of `Model/SerImpls.lean`: an impl the table does not list (`unlisted`), an
-// impl whose text changed (`changed`), a listed impl that is gone (the count line) are model
-// disagreements - somebody has to look at the new code and say which codec of the model covers it.
-
-fn repo_root() -> String {
-	std::env::var("VERIF_REPO").unwrap_or_else(|_| "/repo".to_string())
-}
-
-fn rs_files(dir: &std::path::Path, out: &mut Vec<std::path::PathBuf>) {
-	if let Ok(rd) = std::fs::read_dir(dir) {
-		let mut entries: Vec<std::path::PathBuf> = rd.filter_map(|e| e.ok().map(|e| e.path())).collect();
-		entries.sort();
-		for p in entries {
-			if p.is_dir() {
-				rs_files(&p, out);
-			} else if p.extension().map(|e| e == "rs").unwrap_or(false) {
-				out.push(p);
-			}
-		}
-	}
-}
-
-fn fnv64(bytes: impl Iterator<Item = u8>) -> u64 {
-	let mut h: u64 = 0xcbf29ce484222325;
-	for b in bytes {
-		h ^= b as u64;
-		h = h.wrapping_mul(0x100000001b3);
-	}
-	h
-}
-
-/// `impl<..> [path::]Readable for TYPE {` / `… where` → (kind, TYPE without white space)
-fn impl_head(line: &str) -> Option<(char, String)> {
-	let t = line.trim_start();
-	if !t.starts_with("impl") {
-		return None;
-	}
-	let rest = &t[4..];
-	// generic parameter list
-	let rest = if rest.starts_with('<') {
-		let mut depth = 0i32;
-		let mut end = None;
-		for (i, c) in rest.char_indices() {
-			match c {
-				'<' => depth += 1,
-				'>' => {
-					depth -= 1;
-					if depth == 0 {
-						end = Some(i + 1);
-						break;
-					}
-				}
-				_ => {}
-			}
-		}
-		&rest[end?..]
-	} else {
-		rest
-	};
-	let rest = rest.trim_start();
-	let (tr, after) = rest.split_once(" for ")?;
-	let tr = tr.trim();
-	let tr = tr.rsplit("::").next().unwrap_or(tr);
-	let kind = match tr {
-		"Readable" => 'R',
-		"Writeable" => 'W',
-		_ => return None,
-	};
-	let mut ty = after;
-	if let Some(i) = ty.find('{') {
-		ty = &ty[..i];
-	}
-	if let Some(i) = ty.find(" where") {
-		ty = &ty[..i];
-	}
-	let ty: String = ty.chars().filter(|c| !c.is_whitespace()).collect();
-	if ty.is_empty() {
-		return None;
-	}
-	Some((kind, ty))
-}
-
-fn impl_inventory(cx: &mut Ctx) {
-	let root = repo_root();
-	let mut n_r = 0u64;
-	let mut n_w = 0u64;
-	let mut n_files = 0u64;
-	for krate in ["api", "chain", "config", "core", "keychain", "p2p", "pool", "servers", "store", "util", "src"].iter() {
-		let dir = if *krate == "src" { format!("{}/src", root) } else { format!("{}/{}/src", root, krate) };
-		let mut files = Vec::new();
-		rs_files(std::path::Path::new(&dir), &mut files);
-		for f in files {
-			let text = match std::fs::read_to_string(&f) {
-				Ok(t) => t,
-				Err(_) => continue,
-			};
-			n_files += 1;
-			let rel = f.to_string_lossy().trim_start_matches(&root).trim_start_matches('/').to_string();
-			let lines: Vec<&str> = text.lines().collect();
-			let mut i = 0;
-			while i < lines.len() {
-				if lines[i].trim() == "#[cfg(test)]" {
-					break;
-				}
-				if let Some((kind, ty)) = impl_head(lines[i]) {
-					// the block: from the impl line to the line where the braces balance
-					let mut depth = 0i64;
-					let mut opened = false;
-					let mut j = i;
-					let mut body = String::new();
-					while j < lines.len() {
-						for c in lines[j].chars() {
-							if c == '{' {
-								depth += 1;
-								opened = true;
-							} else if c == '}' {
-								depth -= 1;
-							}
-						}
-						body.push_str(lines[j]);
-						if opened && depth <= 0 {
-							break;
-						}
-						j += 1;
-					}
-					let fp = fnv64(body.bytes().filter(|b| !b.is_ascii_whitespace()));
-					cx.out.line(&format!("ser impl {} {} {} {}", kind, rel, ty, fp), "listed");
-					if kind == 'R' {
-						n_r += 1;
-					} else {
-						n_w += 1;
-					}
-					cx.stat(format!("impls {} {}", kind, rel));
-					i = j + 1;
-					continue;
-				}
-				i += 1;
-			}
-		}
-	}
-	cx.out.line(&format!("ser implcount {} {}", n_r, n_w), "ok");
-	cx.out.raw(&format!("#STAT impls files scanned = {}", n_files));
-	if n_r < 50 {
-		cx.oracle_fail(format!("impl inventory found only {} Readable impls under {} (source tree not found?)", n_r, root));
-	}
-}
-
 fn main() {
 	quiet_panics();
 	let args: Vec<String> = std::env::args().collect();
@@ -5858,9 +5789,6 @@ fn main() {
 	}
 	if section == "all" || section == "ids" {
 		derived_ids(&mut cx);
-	}
-	if section == "all" || section == "impls" {
-		impl_inventory(&mut cx);
 	}
 	if section == "all" || section == "db" {
 		db_values(&mut cx);
